@@ -204,9 +204,11 @@ def observe_protocol(reg):
     if not regc or not unrc:
         raise Inexpressible("the clients send no register / unregister request")
     acks = serve(reg, [brine.dump((magic, regc[0], ((PROBE_NAME,), PROBE_PORT))), brine.dump((magic, unrc[0], (PROBE_PORT,)))])
-    if not (type(acks[0]) is str and acks[0] == acks[1]):
+    texts = [a for a in acks if type(a) is str]
+    if not texts or len(set(texts)) != 1:
+        # (a command that fails to acknowledge at all is a matter for the correspondence and the oracle, not for the translator)
         raise Inexpressible("register / unregister are acknowledged with %r / %r, not one text" % (acks[0], acks[1]))
-    return magic, acks[0], reqs
+    return magic, texts[0], reqs
 
 
 def command_table(reg):
